@@ -875,6 +875,11 @@ def full_api_adjoint(rep, seed, n=80):
         if name == "eig_values":
             D = min(D, 2)          # documented: the general eigendecomposition supports first-order polynomials only
             x = x[:D]
+        if name == "botched_clip":
+            # piecewise linear with kinks at 0.5 and 1.0: keep the base points away from them (the reference J v is a stencil in h)
+            for kink in (0.5, 1.0):
+                near = abs(x[0] - kink) < 0.03
+                x[0][near] = kink + 0.07
         if name.endswith("mixed_pivots"):
             # directions whose zeroth coefficients need different row pivoting
             P = 2
